@@ -40,7 +40,7 @@ Proof.
   - inversion H; subst. exists []. rewrite app_nil_r. split; [reflexivity|]. split; [lia|].
     split; [intros k e []|]. split; [constructor|intros k e []].
   - destruct (dict_get (Z.abs_N (l_z l)) t) as [e0|] eqn:Eg; [|discriminate].
-    set (x := (N.succ key, mkE (e_flag e0) (e_mcnp e0) (l_cls l) (l_aux l))) in *.
+    set (x := (N.succ key, mkE (e_flag e0) (e_mcnp e0) (l_cls l) (l_aux l) (l_sides l))) in *.
     destruct (trcl_lits r (t ++ [x])%list (N.succ key)) as [[[zs0 t0] key0]|] eqn:Er; [|discriminate].
     inversion H; subst zs t0 key0. clear H.
     destruct (IH _ _ _ _ _ Er) as [ext [Ht [Hk [Hr [Hnd Hinh]]]]].
@@ -122,12 +122,12 @@ Qed.
 Lemma trcl_lits_lit ls : forall t key zs t' key' l,
   trcl_lits ls t key = Ok (zs, t', key') -> In l ls ->
   exists e k', dict_get (Z.abs_N (l_z l)) t' = Some e /\
-    In (k', mkE (e_flag e) (e_mcnp e) (l_cls l) (l_aux l)) t' /\
+    In (k', mkE (e_flag e) (e_mcnp e) (l_cls l) (l_aux l) (l_sides l)) t' /\
     In (sign_key (l_z l) k') zs /\ (key < k')%N.
 Proof.
   induction ls as [|l0 r IH]; intros t key zs t' key' l H Hin; [destruct Hin|]. cbn in H.
   destruct (dict_get (Z.abs_N (l_z l0)) t) as [e0|] eqn:Eg; [|discriminate].
-  set (x := (N.succ key, mkE (e_flag e0) (e_mcnp e0) (l_cls l0) (l_aux l0))) in *.
+  set (x := (N.succ key, mkE (e_flag e0) (e_mcnp e0) (l_cls l0) (l_aux l0) (l_sides l0))) in *.
   destruct (trcl_lits r (t ++ [x])%list (N.succ key)) as [[[zs0 t0] key0]|] eqn:Er; [|discriminate].
   inversion H; subst zs t0 key0. clear H.
   destruct (trcl_lits_ext _ _ _ _ _ _ Er) as [ext [Ht _]].
@@ -166,7 +166,8 @@ Theorem bc_designates_present_same_locus_trcl cfg cards tcells t cells t' surfs 
   run_t cfg cards tcells = Ok (surfs, bcs) ->
   In (k, e) t' -> (e_flag e = "*" \/ e_flag e = "+") ->
   (exists c, In c (converted cells) /\
-             survives (negb (skip_dedup cfg)) (number_items t') c /\ bounds c k) ->
+             survives (negb (skip_dedup cfg)) (number_items t') (matching_of t') c /\
+             names c k) ->
   let k' := rep (negb (skip_dedup cfg)) (number_items t') k in
   In (kind_of (e_flag e), k') bcs /\ count_key k' bcs = 1%nat /\ In (k', e_first e) surfs.
 Proof.
@@ -200,6 +201,23 @@ Proof.
   destruct (finish_sound _ _ _ _ _ Hs Hnd' Hfin) as [Hn Hall]. split; [assumption|].
   intros kd k' Hin. destruct (Hall kd k' Hin) as [k [e [He [Hf [H1 [H2 [Hr Hsf]]]]]]].
   exists k, e. split; [assumption|]. split; [eauto|]. auto.
+Qed.
+
+(* every designated number is a surface number of the expanded dictionary;
+   the auxiliary sub-surfaces (numbered above all of them) carry no entry *)
+Theorem bc_designates_keys_trcl cfg cards tcells t cells t' surfs bcs kd k' :
+  skip_bc cfg = false ->
+  parse_cards cards [] = Ok t ->
+  apply_trcls tcells t (N.succ (max_key t)) = Ok (cells, t') ->
+  run_t cfg cards tcells = Ok (surfs, bcs) -> In (kd, k') bcs ->
+  In k' (map fst t') /\ (k' <= max_key t')%N.
+Proof.
+  intros Hs Hp Ha Hrun Hin.
+  destruct (run_t_unfold _ _ _ _ Hrun) as [t0 [cells0 [t0' [Hp0 [Ha0 Hfin]]]]].
+  rewrite Hp in Hp0. inversion Hp0; subst t0. rewrite Ha in Ha0. inversion Ha0; subst cells0 t0'.
+  pose proof (parsed_keys_distinct _ _ Hp) as Hnd.
+  destruct (expanded_table _ _ _ _ Hnd Ha) as [Hnd' _].
+  eapply finish_designates_keys; eauto.
 Qed.
 
 (* no flagged card: no entry, whatever the cells and their TRCL *)
@@ -274,13 +292,13 @@ Theorem trcl_copy_in_table cfg cards tcells out c l :
     parse_cards cards [] = Ok t /\
     apply_trcls tcells t (N.succ (max_key t)) = Ok (cells, t') /\
     dict_get (Z.abs_N (l_z l)) t' = Some e /\
-    In (k', mkE (e_flag e) (e_mcnp e) (l_cls l) (l_aux l)) t'.
+    In (k', mkE (e_flag e) (e_mcnp e) (l_cls l) (l_aux l) (l_sides l)) t'.
 Proof.
   intros Hrun Hc Htr Hl.
   destruct (run_t_unfold _ _ _ _ Hrun) as [t [cells [t' [Hp [Ha Hfin]]]]].
   exists t, cells, t'.
   assert (Hcopy : exists e k', dict_get (Z.abs_N (l_z l)) t' = Some e /\
-            In (k', mkE (e_flag e) (e_mcnp e) (l_cls l) (l_aux l)) t').
+            In (k', mkE (e_flag e) (e_mcnp e) (l_cls l) (l_aux l) (l_sides l)) t').
   { clear Hfin Hp Hrun. remember (N.succ (max_key t)) as key eqn:Hk. clear Hk.
     revert key t cells t' Ha.
     induction tcells as [|c0 r IH]; intros key t cells t' Ha; [destruct Hc|]. cbn in Ha.
@@ -305,41 +323,43 @@ Qed.
 
 (* *2 PX 0 (class 7) used only by a cell with TRCL=(1 0 0) (copy 7: class 8) *)
 Definition w_trcl_cards : list scard :=
-  [mkS "1" 1 5 []; mkS "4" 1 9 []; mkS "*2" 1 7 []].
+  [mkS "1" 1 5 [] []; mkS "4" 1 9 [] []; mkS "*2" 1 7 [] []].
 Definition w_trcl_cells : list tcell :=
-  [mkC 1 true true [mkL (-1) 15 []; mkL 2 8 []; mkL (-4) 9 []]].
+  [mkC 1 true true [mkL (-1) 15 [] []; mkL 2 8 [] []; mkL (-4) 9 [] []]].
 
 (* *2 PX 0 used by a cell with TRCL=(0 0 0) and by a plain cell *)
 Definition w_copy_cards : list scard :=
-  [mkS "1" 1 5 []; mkS "4" 1 9 []; mkS "*2" 1 7 []].
+  [mkS "1" 1 5 [] []; mkS "4" 1 9 [] []; mkS "*2" 1 7 [] []].
 Definition w_copy_cells : list tcell :=
-  [mkC 1 true true [mkL (-1) 5 []; mkL 2 7 []; mkL (-4) 9 []];
-   mkC 3 true false [mkL (-1) 0 []; mkL (-2) 0 []]].
+  [mkC 1 true true [mkL (-1) 5 [] []; mkL 2 7 [] []; mkL (-4) 9 [] []];
+   mkC 3 true false [mkL (-1) 0 [] []; mkL (-2) 0 [] []]].
 
 (* ---- decks without TRCL -------------------------------------------------- *)
 
-(* a converted cell card without TRCL *)
-Definition plain (c : cell) : tcell :=
-  mkC (fst c) true false (map (fun z => mkL z 0 []) (snd c)).
+(* a converted cell card without TRCL (an intersection of literals), and the
+   one-part cell it becomes *)
+Definition plain (c : N * list Z) : tcell :=
+  mkC (fst c) true false (map (fun z => mkL z 0 [] []) (snd c)).
+Definition one_part (c : N * list Z) : cell := (fst c, [snd c]).
 
-Lemma apply_trcls_plain cells : forall t key,
-  apply_trcls (map plain cells) t key = Ok (map (fun c => (true, c)) cells, t).
+Lemma apply_trcls_plain cs : forall t key,
+  apply_trcls (map plain cs) t key = Ok (map (fun c => (true, one_part c)) cs, t).
 Proof.
-  induction cells as [|[i zs] r IH]; intros t key; cbn; [reflexivity|].
+  induction cs as [|[i zs] r IH]; intros t key; cbn; [reflexivity|].
   rewrite IH. rewrite map_map. cbn. rewrite map_id. reflexivity.
 Qed.
 
-Lemma converted_plain cells : converted (map (fun c => (true, c)) cells) = cells.
+Lemma converted_plain cs :
+  converted (map (fun c => (true, one_part c)) cs) = map one_part cs.
 Proof.
-  unfold converted. induction cells as [|c r IH]; cbn; [reflexivity|]. f_equal. exact IH.
+  unfold converted. induction cs as [|c r IH]; cbn; [reflexivity|]. f_equal. exact IH.
 Qed.
 
 (* [run] is [run_t] on decks whose cells are all converted and carry no TRCL *)
-Theorem run_t_plain cfg cards cells :
-  run_t cfg cards (map plain cells) = run cfg cards cells.
+Theorem run_t_plain cfg cards cs :
+  run_t cfg cards (map plain cs) = run cfg cards (map one_part cs).
 Proof.
   unfold run_t, run. destruct (parse_cards cards []) as [t|]; [|reflexivity].
   destruct t as [|x r]; [reflexivity|].
   rewrite apply_trcls_plain, converted_plain. reflexivity.
 Qed.
-
